@@ -77,7 +77,9 @@ func ParseLog(text string) {
 
 		currentFileChangeMap = make(map[string]FileChange)
 		currentCommit.Changes = currentFileChanges
-		commits = append(commits, currentCommit)
+		if len(currentFileChanges) > 0 {
+			commits = append(commits, currentCommit)
+		}
 
 		currentCommit = CommitMessage{"", "", "", "", nil}
 		currentFileChanges = nil
